@@ -33,6 +33,7 @@ package sql
 
 //@ func (*ATSourceManager).BranchRollback
 //@   prop C01 C09 C10
+//@   modifies ghost.all, heap.all
 //@   requires a != nil
 //@   let known := haskey(syncmap(a, "resourceCache"), box(branchResource.ResourceId, string))
 //@   requires known ==> isT(syncmap(a, "resourceCache")[box(branchResource.ResourceId, string)], *DBResource) && syncmap(a, "resourceCache")[box(branchResource.ResourceId, string)].(*DBResource) != nil
@@ -41,3 +42,137 @@ package sql
 //@   ensures unknown-resource: !known ==> result1 != nil && !called("RunUndo#1") && result0 != branch.BranchStatusPhasetwoRollbacked
 //@   ensures undo-success: called("RunUndo#1") && ghost.runundo_err_nil ==> result0 == branch.BranchStatusPhasetwoRollbacked && result1 == nil
 //@   at call RunUndo#1: assert addresses-this-branch: arg_xid == branchResource.Xid && arg_branchID == branchResource.BranchId
+
+// ---------------------------------------------------------------------------------------------
+// C02: AT phase one. Environment (assumed): the target driver's transaction (ghost.dtx: 1 open,
+// 2 committed, 3 rolled back; a failing COMMIT / ROLLBACK leaves the state as it was), the data
+// source manager reached through the registry (every request may fail; calls counted), the undo
+// log manager's FlushUndoLog (may fail), tx hooks (user extension points, no effect on these ghosts).
+//@ ghost var dtx int
+//@ ghost var registers int
+//@ ghost var reg_ok bool
+//@ ghost var flushes int
+//@ ghost var flush_ok bool
+//@ ghost var reports int
+//@ ghost var report_acked bool
+//@ ghost var reported_failed bool
+//@ ghost var reported_done bool
+//@ ghost var f_calls int
+//@ ghost var f_ok bool
+
+//@ iface (driver.Tx).Commit
+//@   modifies ghost.dtx
+//@   ensures (result == nil ==> ghost.dtx == 2) && (result != nil ==> ghost.dtx == old(ghost.dtx))
+//@ iface (driver.Tx).Rollback
+//@   modifies ghost.dtx
+//@   ensures (result == nil ==> ghost.dtx == 3) && (result != nil ==> ghost.dtx == old(ghost.dtx))
+//@ iface (driver.ConnBeginTx).BeginTx
+//@   modifies ghost.dtx
+//@   ensures (result1 == nil ==> result0 != nil && ghost.dtx == 1) && (result1 != nil ==> ghost.dtx == old(ghost.dtx))
+//@ iface (driver.Conn).Begin
+//@   modifies ghost.dtx
+//@   ensures (result1 == nil ==> result0 != nil && ghost.dtx == 1) && (result1 != nil ==> ghost.dtx == old(ghost.dtx))
+//@ ext seata.apache.org/seata-go/pkg/datasource/sql/datasource.GetDataSourceManager
+//@   ensures result != nil
+//@ iface (datasource.DataSourceManager).BranchRegister
+//@   modifies ghost.registers, ghost.reg_ok
+//@   ensures ghost.registers == old(ghost.registers) + 1 && ghost.reg_ok == (result1 == nil) && (result1 == nil ==> result0 != 0)
+//@ iface (datasource.DataSourceManager).BranchReport
+//@   modifies ghost.reports, ghost.report_acked, ghost.reported_failed, ghost.reported_done
+//@   ensures ghost.reports == old(ghost.reports) + 1 && ghost.report_acked == (old(ghost.report_acked) || result == nil)
+//@   ensures ghost.reported_failed == (old(ghost.reported_failed) || param.Status == branch.BranchStatusPhaseoneFailed) && ghost.reported_done == (old(ghost.reported_done) || param.Status == branch.BranchStatusPhaseoneDone)
+//@ iface (undo.UndoLogManager).FlushUndoLog
+//@   modifies ghost.flushes, ghost.flush_ok
+//@   ensures ghost.flushes == old(ghost.flushes) + 1 && ghost.flush_ok == (result == nil)
+//@ ext context.Background
+//@   ensures result != nil
+//@ func (*Tx).beforeCommit
+//@   trusted
+//@   ensures true
+//@ iface (sql.txHook).BeforeRollback
+//@   ensures true
+//@ iface (sql.txHook).BeforeCommit
+//@   ensures true
+
+//@ func getStatus
+//@   prop C02
+//@   ensures post: (success ==> result == branch.BranchStatusPhaseoneDone) && (!success ==> result == branch.BranchStatusPhaseoneFailed)
+
+//@ func (*Tx).register
+//@   prop C02
+//@   requires tx != nil && ctx != nil && ctx.RoundImages != nil
+//@   let needs := ctx.TransactionMode == types.ATMode && (len(ctx.RoundImages.before) != 0 || len(ctx.RoundImages.after) != 0) && len(ctx.LockKeys) != 0
+//@   let xa := ctx.TransactionMode == types.XAMode
+//@   modifies ghost.registers, ghost.reg_ok, ctx.BranchID
+//@   ensures nothing-to-register: !needs && !xa ==> result == nil && ghost.registers == old(ghost.registers) && ctx.BranchID == old(ctx.BranchID)
+//@   ensures registers-once: needs || xa ==> ghost.registers == old(ghost.registers) + 1 && (result == nil) == ghost.reg_ok
+//@   ensures records-branch-id: (needs || xa) && result == nil && called("BranchRegister#1") ==> ctx.BranchID == callres("BranchRegister#1", 0) % pow2(64)
+//@   ensures registered-has-id: (needs || xa) && result == nil ==> ctx.BranchID != 0
+//@   ensures refusal-surfaces: (needs || xa) && !ghost.reg_ok ==> result != nil && ctx.BranchID == old(ctx.BranchID)
+//@   at call BranchRegister#1: assert describes-this-branch: arg_param.Xid == ctx.XID && arg_param.ResourceId == ctx.ResourceID && (needs ==> arg_param.BranchType == branch.BranchTypeAT) && (xa ==> arg_param.BranchType == branch.BranchTypeXA)
+//@   range 1 invariant true
+
+//@ func (*Tx).report
+//@   prop C02
+//@   requires tx != nil && tx.tranCtx != nil
+//@   modifies ghost.reports, ghost.report_acked, ghost.reported_failed, ghost.reported_done, ghost.ctx_done
+//@   ensures unregistered-silent: tx.tranCtx.BranchID == 0 ==> result == nil && ghost.reports == old(ghost.reports)
+//@   ensures bounded: ghost.reports <= old(ghost.reports) + 5
+//@   ensures status: (success ==> ghost.reported_failed == old(ghost.reported_failed)) && (!success ==> ghost.reported_done == old(ghost.reported_done))
+//@   ensures attempted: tx.tranCtx.BranchID != 0 && !ghost.ctx_done ==> ghost.reports > old(ghost.reports) && (success ==> ghost.reported_done) && (!success ==> ghost.reported_failed)
+//@   ensures truthful: tx.tranCtx.BranchID != 0 && !ghost.ctx_done && !old(ghost.report_acked) ==> (result == nil) == ghost.report_acked
+//@   at call BranchReport#1: assert describes-this-branch: arg_param.Xid == tx.tranCtx.XID && arg_param.BranchId % pow2(64) == tx.tranCtx.BranchID && (success ==> arg_param.Status == branch.BranchStatusPhaseoneDone) && (!success ==> arg_param.Status == branch.BranchStatusPhaseoneFailed)
+//@   loop 1 invariant shape: retry != nil && retry.ctx != nil && retry.cfg.MaxRetries == 5 && retry.numRetries >= 0 && retry.numRetries <= 5 && ghost.reports == old(ghost.reports) + retry.numRetries
+//@   loop 1 invariant failed-so-far: (retry.numRetries > 0 ==> err != nil) && (retry.numRetries == 0 ==> err == nil) && ghost.report_acked == old(ghost.report_acked)
+//@   loop 1 invariant status: (success ==> ghost.reported_failed == old(ghost.reported_failed) && (retry.numRetries > 0 ==> ghost.reported_done)) && (!success ==> ghost.reported_done == old(ghost.reported_done) && (retry.numRetries > 0 ==> ghost.reported_failed))
+//@   loop 1 decreases 5 - retry.numRetries
+
+//@ func (*ATTx).commitOnAT
+//@   prop C02
+//@   requires tx != nil && tx.tx != nil && tx.tx.tranCtx != nil && tx.tx.tranCtx.RoundImages != nil && tx.tx.conn != nil && tx.tx.target != nil
+//@   requires ghost.dtx == 1 && ghost.registers == 0 && ghost.flushes == 0 && ghost.reports == 0 && !ghost.reported_failed && !ghost.reported_done && !ghost.report_acked && tx.tx.tranCtx.BranchID == 0
+//@   let ctx := tx.tx.tranCtx
+//@   let needs := ctx.TransactionMode == types.ATMode && (len(ctx.RoundImages.before) != 0 || len(ctx.RoundImages.after) != 0) && len(ctx.LockKeys) != 0
+//@   modifies ghost.dtx, ghost.registers, ghost.reg_ok, ghost.flushes, ghost.flush_ok, ghost.reports, ghost.report_acked, ghost.reported_failed, ghost.reported_done, ghost.ctx_done, ctx.BranchID
+//@   ensures committed-iff-success: (result == nil) == (ghost.dtx == 2)
+//@   ensures refused-registration-commits-nothing: ghost.registers == 1 && !ghost.reg_ok ==> result != nil && ghost.flushes == 0 && ghost.dtx != 2
+//@   ensures failed-flush-commits-nothing: ghost.flushes == 1 && !ghost.flush_ok ==> result != nil && ghost.dtx != 2
+//@   ensures failure-leaves-no-open-tx: result != nil && !called("Commit#1") ==> called("Rollback#1")
+//@   ensures failure-reported: result != nil && ghost.registers == 1 && ghost.reg_ok && !ghost.ctx_done ==> ghost.reported_failed && !ghost.reported_done
+//@   ensures done-only-after-commit: ghost.reported_done ==> ghost.dtx == 2 && !ghost.reported_failed
+//@   at call FlushUndoLog#1: assert registered-before-undo-log: (needs ==> ghost.registers == 1 && ghost.reg_ok && ctx.BranchID != 0) && arg_tranCtx == ctx && arg_conn == tx.tx.conn.targetConn && ghost.dtx == 1
+//@   at call Commit#1: assert commit-after-register-and-undo-log: (needs ==> ghost.registers == 1 && ghost.reg_ok) && ghost.flushes == 1 && ghost.flush_ok && ghost.reports == 0
+
+// The statement callback of createNewTxOnExecIfNeed (the SQL executor chain): any result, may panic;
+// assumed not to touch the branch id or the target transaction itself.
+//@ ext callback:f
+//@   may_panic
+//@   modifies ghost.f_calls, ghost.f_ok
+//@   ensures ghost.f_calls == old(ghost.f_calls) + 1 && ghost.f_ok == (result1 == nil)
+//@   ensures_on_panic ghost.f_calls == old(ghost.f_calls) + 1 && !ghost.f_ok
+
+//@ func (*ATConn).createNewTxOnExecIfNeed
+//@   prop C02
+//@   modifies c.Conn.txCtx, c.Conn.autoCommit, ghost.dtx, ghost.f_calls, ghost.f_ok, ghost.registers, ghost.reg_ok, ghost.flushes, ghost.flush_ok, ghost.reports, ghost.report_acked, ghost.reported_failed, ghost.reported_done, ghost.ctx_done
+//@   requires c != nil && c.Conn != nil && c.Conn.txCtx != nil && c.Conn.res != nil && c.Conn.targetConn != nil
+//@   requires ghost.dtx == 0 && ghost.f_calls == 0 && ghost.registers == 0 && ghost.flushes == 0 && ghost.reports == 0 && !ghost.reported_failed && !ghost.reported_done && !ghost.report_acked
+//@   ensures begin-failure-runs-nothing: ghost.dtx == 0 && ghost.f_calls == 0 ==> result1 != nil
+//@   ensures statement-runs-once: ghost.f_calls <= 1
+//@   ensures failed-statement-rolled-back: ghost.f_calls == 1 && !ghost.f_ok ==> result1 != nil && ghost.dtx != 2 && (called("BeginTx#1") || called("Begin#1") ==> called("Rollback#1"))
+//@   ensures implicit-tx-ended: ghost.dtx == 1 ==> called("Rollback#1") || called("Commit#1")
+//@   ensures success-means-committed: result1 == nil && (called("BeginTx#1") || called("Begin#1")) ==> ghost.dtx == 2 && ghost.f_ok
+//@   ensures commit-error-surfaces: called("commitOnAT#1") && callres("commitOnAT#1", 0) != nil ==> result1 != nil
+//@   ensures_on_panic false
+
+//@ func (*ATConn).BeginTx
+//@   prop C02
+//@   modifies ghost.dtx, c.Conn.txCtx, c.Conn.autoCommit
+//@   requires c != nil && c.Conn != nil && c.Conn.res != nil && c.Conn.targetConn != nil && ctx != nil
+//@   let cv := ctxvalue(ctx, tm.seataContextVariable)
+//@   requires cv != nil ==> isT(cv, *tm.ContextVariable) && cv.(*tm.ContextVariable) != nil
+//@   let global := cv != nil && cv.(*tm.ContextVariable).Xid != ""
+//@   ensures joins-global: result1 == nil && global ==> c.Conn.txCtx.TransactionMode == types.ATMode && c.Conn.txCtx.XID == cv.(*tm.ContextVariable).Xid && c.Conn.txCtx.ResourceID == c.Conn.res.resourceID
+//@   ensures local-otherwise: result1 == nil && !global ==> c.Conn.txCtx.TransactionMode == types.Local
+//@   ensures fresh-context: result1 == nil ==> c.Conn.txCtx != nil && c.Conn.txCtx.BranchID == 0 && c.Conn.txCtx.RoundImages != nil && len(c.Conn.txCtx.RoundImages.before) == 0 && len(c.Conn.txCtx.RoundImages.after) == 0 && !c.Conn.autoCommit
+//@   ensures at-tx: result1 == nil ==> isT(result0, *ATTx) && result0.(*ATTx) != nil && result0.(*ATTx).tx != nil && result0.(*ATTx).tx.tranCtx == c.Conn.txCtx && result0.(*ATTx).tx.conn == c.Conn && result0.(*ATTx).tx.target != nil && ghost.dtx == 1
+//@   ensures begin-failure: result1 != nil ==> ghost.dtx == old(ghost.dtx)
